@@ -5,6 +5,7 @@
    solution-set theorem C04_best_never_worse (Properties_C04). *)
 From Coq Require Import List ZArith Bool Arith.
 From OmplV Require Import PisModel PisProofs LedgerModel LedgerProofs RrtModel RrtProofs RrtConnectModel RrtConnectProofs LpaModel LpaProofs.
+From OmplV Require RrtStarModel RrtStarCost RrtStarCost2 RrtStarCalls.
 Import ListNotations.
 
 (* a fresh query hands out every valid in-bounds start exactly once, in order, then reports that none is left *)
@@ -94,6 +95,23 @@ Print Assumptions C03_same_problem_definition_keeps_progress.
 Print Assumptions C03_after_clear_only_current_starts.
 Print Assumptions C03_goal_samples_bounded.
 Print Assumptions C03_rrt_family_resumed_solves_report_real_paths.
+(* geometric::RRTstar across solve() calls without clear() (RrtStarCalls: the tree, the goal motions, the best goal motion and the best
+   cost persist, the approximate-solution bookkeeping is local to a call): under the order hypotheses of C01_rrtstar_reports_only_real_paths
+   and a symmetric-shortcut used only for a symmetric objective, for ANY number of calls with any iteration counts, tapes and samples, every
+   call that reports a path reports one that begins at a start state, consists of validated motions, ends in a goal state when exact, and
+   carries as stored cost the objective's cost of that path *)
+Theorem C03_rrtstar_resumed_solves_report_real_paths :
+  forall (St C : Type) (dist : St -> St -> C) (clt : C -> C -> bool) (cadd : C -> C -> C) (c0 : C) (mcost : St -> St -> C) (sym : bool) (csat : C -> bool)
+         (steer : St -> St -> St) (maxd : C) (mv : St -> St -> bool) (sat : St -> bool) (gdist : St -> C) (goal_state dflt : St) (bias : C) (kof : nat -> nat),
+  (sym = true -> forall a b : St, mcost a b = mcost b a) ->
+  (forall a b c : C, RrtStarCost.cle C clt a b -> RrtStarCost.cle C clt b c -> RrtStarCost.cle C clt a c) ->
+  forall nn : C -> Prop, (forall a i : C, nn i -> RrtStarCost.cle C clt a (cadd a i)) -> (forall a : C, clt a a = false) -> nn c0 -> (forall a b : St, nn (mcost a b)) ->
+  forall (starts : list St) (calls : list (nat * list C * list St)), starts <> nil ->
+  Forall (fun rep => exists l : list (RrtStarModel.node St C), RrtStarCalls.ReportOk St C cadd c0 mcost mv sat dflt starts l rep)
+         (snd (RrtStarCalls.star_solves St C dist clt cadd c0 mcost sym csat steer maxd mv sat gdist goal_state dflt bias kof starts calls)).
+Proof. exact RrtStarCalls.star_solves_spec. Qed.
+
+Print Assumptions C03_rrtstar_resumed_solves_report_real_paths.
 Print Assumptions C03_rrtconnect_resumed_solves_report_real_paths.
 Print Assumptions C03_lpastar_queue_invariants_after_every_history.
 Print Assumptions C03_admission_sound.
